@@ -459,6 +459,10 @@ class Session:
                     which = "E4" if fired1 else "E1"
                     self.violate(i, name, which, {"what": "undocumented exception type escaped", "exc": info, "solver_fault": script if fired1 else None},
                                  "exc=%s.%s at=%s" % (info["module"], info["cls"], info["where"]))
+                elif name == "elim_relax" and info["cls"] == "IncompatibleArgsError" and not fired1 and not _jointly_feasible(can):
+                    # E1c: relaxation can always eliminate (what it cannot rewrite it drops), so "variables cannot be eliminated"
+                    # is not a possible cause; with the list unsatisfiable in its context the documented class is plain ValueError
+                    self.violate(i, name, "E1c", {"what": "an unsatisfiable system reported as IncompatibleArgsError by a list-level relaxation", "exc": info}, "want=ValueError got=IncompatibleArgsError")
             if "E2" in O:
                 self.after_error(i, name, step, can)
         if "E1b" in O and not fired1 and wfault is None:
